@@ -22,7 +22,7 @@ ASSUMPTIONS = [
     'every write() is handed a fresh Envelope object that the caller does not mutate afterwards (DictStorage stores and returns that very object)',
     'updates and removes address live messages; the indexes of a marking round are distinct and inside the recipient list get() currently returns (what Queue._handle_partial_relay computes); get may address any id',
     'uuid4 is steered: the id-allocation loops draw from scripted candidates (collisions with live and removed ids included); mkstemp names are scripted',
-    'RedisStorage.load is issued after the announcement list has been consumed by wait() (as the queue\'s _wait_store greenlet does); load with a non-empty list key is reported, not judged',
+    'redis runs come in two variants: announcements left on the list, and consumed by wait() before every load(); ids returned by load()/wait() are compared with == and type identity against what write() returned',
     'redis and the cloud object store are the fakes of harness/vp/storefakes.py (bytes answers like redis-py; metadata conventions of slimta.cloudstorage.aws); pickling is trusted',
     'timestamps are integers (float(timestamp) of redis compares equal)',
 ]
@@ -37,6 +37,7 @@ class Ref(object):
     def __init__(self):
         self.m = {}          # id -> [sender, rcpts, content, ts, attempts]
         self.dead = set()
+        self.ann = []        # (timestamp, id) announced by write(), not yet handed out by wait()
 
     def live(self):
         return sorted(self.m)
@@ -49,10 +50,13 @@ class Ref(object):
                     s, r, cont = o[1]
                     self.m[c] = [s, list(r), cont, o[2], 0]
                     self.dead.discard(c)
+                    self.ann.append((o[2], c))
                     return ('id', c)
             return ('noid',)
         if k == 'load':
             return ('load', tuple(sorted((e[3], i) for i, e in self.m.items())))
+        if k == 'wait':
+            return ('load', (self.ann.pop(0),)) if self.ann else ('load', ())
         id = o[1]
         e = self.m.get(id)
         if k == 'get':
@@ -85,7 +89,7 @@ class Ref(object):
 
 def wf_op(ref, o):
     k = o[0]
-    if k in ('write', 'load', 'get'):
+    if k in ('write', 'load', 'get', 'wait'):
         return True
     e = ref.m.get(o[1])
     if e is None:
@@ -114,6 +118,8 @@ def enc_op(o):
         return [5, o[1]]
     if k == 'remove':
         return [6, o[1]]
+    if k == 'wait':
+        return [7]
     raise ValueError(k)
 
 
@@ -187,6 +193,7 @@ class Adapter(object):
         self.gates = gates
         self.stack = contextlib.ExitStack()
         self.disk = None
+        self.written = {}        # id as int -> the very object write() returned
         if name == 'dict':
             self._patch(dictmod, 'uuid', self.hub)
             self.st = dictmod.DictStorage()
@@ -222,14 +229,23 @@ class Adapter(object):
         try:
             if k == 'write':
                 self.hub.set(sf.Choices(o[3], o[4]))
-                return ('id', int(st.write(sf.mk_envelope(*o[1]), o[2])))
-            if k == 'load':
+                rid = st.write(sf.mk_envelope(*o[1]), o[2])
+                self.written[int(rid)] = rid
+                return ('id', int(rid))
+            if k in ('load', 'wait'):
                 if self.name == 'redis':
-                    self.clock.now = o[1]
-                    if not self.cfg.get('raw'):
-                        while self.fake.llen(st.queue_key):
-                            st.wait()
-                return ('load', tuple(sorted((canon_ts(ts), canon_id(i)) for ts, i in st.load())))
+                    self.clock.now = o[1] if k == 'load' else 0
+                pairs = list(st.load()) if k == 'load' else list(st.wait())
+                # ids must be EQUAL (==, same type) to what write() returned
+                for ts, rid in pairs:
+                    try:
+                        known = self.written.get(canon_id(rid))
+                    except ValueError:
+                        known = None
+                    if not isinstance(rid, str) or (known is not None and (known != rid or type(known) is not type(rid))):
+                        return ('id-differs', repr(rid), repr(known))
+                pairs = [(canon_ts(ts), canon_id(i)) for ts, i in pairs]
+                return ('load', tuple(sorted(pairs) if k == 'load' else pairs))
             id = str(o[1])
             if k == 'get':
                 env, att = st.get(id)
@@ -426,6 +442,22 @@ def exhaustive_sequences(maxlen):
 _seen = {}
 
 
+def with_waits(sq):
+    """redis variant: the queue's _wait_store greenlet consumes the announcements -
+    wait() calls (one per pending announcement) in front of every load()"""
+    ops, forms, ids = sq
+    ref = Ref()
+    out, fo = [], []
+    for o, f in zip(ops, forms):
+        if o[0] == 'load':
+            for _ in range(len(ref.ann)):
+                out.append(('wait',)); fo.append('set')
+                ref.step(('wait',))
+        out.append(o); fo.append(f)
+        ref.step(o)
+    return out, fo, ids
+
+
 def fail(ctx, key, case, what):
     """at most 3 recorded cases per key (keeps room for other keys)"""
     _seen[key] = _seen.get(key, 0) + 1
@@ -442,6 +474,10 @@ def classify(b, o, got, want):
         return 'c15:delivered-marks-not-a-list'
     if k == 'incr' and b == 'cloud' and got == ('missing',):
         return 'c15:cloud-first-increment'
+    if b == 'redis' and k == 'load' and got == ('exc', 'ResponseError'):
+        return 'c15:redis-load-raises-with-pending-announcements'
+    if b == 'redis' and k in ('load', 'wait') and got[0] == 'id-differs':
+        return 'c15:redis-load-id-differs-from-write-id'
     return 'c15:%s-%s' % (b, k)
 
 
@@ -449,9 +485,11 @@ def run_sequences(ctx, seqs, label, judged=True, cfgs=None):
     """seqs: list of (ops, forms, ids).  Runs every backend on every sequence,
     compares with the model (correspondence) and the reference (oracle)."""
     cfgs = cfgs or {}
+    all_seqs = seqs
     for b in BACKENDS:
-        cfg_list = cfgs.get(b) or [{}]
+        cfg_list = cfgs.get(b) or ([{}, dict(consume=True)] if b == 'redis' else [{}])
         for ci, cfg in enumerate(cfg_list):
+            seqs = [with_waits(sq) for sq in all_seqs] if cfg.get('consume') else all_seqs
             inputs = [model_input(b, ops, ids, cfg) for ops, forms, ids in seqs]
             mouts = ctx.model.batch(model_name(b), inputs)
             refouts = ctx.model.batch('c15_ref', [[[enc_op(o) for o in ops], list(ids)] for ops, forms, ids in seqs]) if (b == 'dict' and ci == 0) else None
@@ -543,18 +581,6 @@ def stream_misuse(ctx, n, nops):
             continue
         seqs.append((ops, forms, ids))
     run_sequences(ctx, seqs, 'misuse', judged=False, cfgs={'disk': [dict(codec=True, chunk=9)]})
-    # load with the announcement list still present
-    ops = [('write', ('s@x', ('r@x',), CONTENTS[0]), 5, (1,), (1, 2)), ('load', 77)]
-    ad = Adapter('redis', dict(raw=True))
-    try:
-        got = [ad.do(o) for o in ops]
-    finally:
-        ad.close()
-    mo = ctx.model.call('c15_redis_raw', [[enc_op(o) for o in ops], []])
-    if got != [dec_res(x) for x in mo[0]]:
-        ctx.mismatch('redis-raw-load', dict(ops=ops), got, [dec_res(x) for x in mo[0]])
-    ctx.note('not judged (depends on the fake\'s fidelity to redis-py): RedisStorage.load() while the announcement '
-             'list key exists returns %r (bytes key never equals the str queue key, HGET on a list)' % (got[1],))
 
 
 def stream_rounds(ctx, maxn):
@@ -716,7 +742,8 @@ def stream_interleaved(ctx, n):
                 want_final = [ref_all.step(('get', i)) for i in ids]
                 want_load = ref_all.step(('load', 1))
                 if not thread_failed and (final != want_final or final_load != want_load):
-                    fail(ctx, 'c15:overlap-%s-final' % b, case,
+                    key = classify(b, ('load', 1), final_load, want_load)
+                    fail(ctx, key if key != 'c15:%s-load' % b else 'c15:overlap-%s-final' % b, case,
                              '%s: after overlapped operations get/load return %r / %r, expected %r / %r'
                              % (b, final, final_load, want_final, want_load))
             finally:
